@@ -400,7 +400,7 @@ def main():
         if broken and not judge_fail and not a.replay:
             # bounded: at most three thorough-size generations and SEARCH_BUDGET seconds in total
             t_search = time.time()
-            budget = 300 if tier == "quick" else 1500
+            budget = 180 if tier == "quick" else 1500
             for extra in range(1, 4):
                 left = budget - (time.time() - t_search)
                 if left < 20:
